@@ -1,6 +1,7 @@
 package main
 
 import (
+	"bufio"
 	"bytes"
 	"fmt"
 	"net"
@@ -340,7 +341,117 @@ func serverScenario(ctx *hx.Ctx, aRecord bool, nDgrams int, name string, udpHost
 	_ = legitSent
 }
 
+// oversizedPortScenario: the Transport header's client_port is parsed as a 31-bit number and not range-checked; a session
+// that negotiates client ports above 65535 can never receive a datagram from a REAL source port equal to them, so for
+// such a session EVERY datagram is from a non-negotiated source and must be ignored - in particular those from the
+// addresses and ports an implementation would get by folding the excess bits of the port into a packed (address, port)
+// key: address | (port >> 16), port & 0xffff.
+func oversizedPortScenario(ctx *hx.Ctx, k int) {
+	name := fmt.Sprintf("server play, client_port = 65536*%d + p", k)
+	fail := func(class, f string, a ...any) { ctx.Failf(-1, class, name, name+": "+f, a...) }
+	h, err := startServer(60*time.Second, 10*time.Second, 0, "127.0.0.1")
+	if err != nil {
+		fail("harness-server-start", "%v", err)
+		return
+	}
+	defer h.close()
+	const clientIP = "127.0.0.8" // low bits free: 127.0.0.8 | k = 127.0.0.(8+k) for k < 8
+	d := net.Dialer{LocalAddr: &net.TCPAddr{IP: net.ParseIP(clientIP)}, Timeout: 5 * time.Second}
+	nc, err := d.Dial("tcp", h.addr())
+	if err != nil {
+		ctx.Kind("oversized-port:cannot-dial-from-" + clientIP)
+		return
+	}
+	defer nc.Close()
+	pr := &peer{nc: nc, br: bufio.NewReader(nc), addr: h.addr()}
+	// the sources an attacker would use, and the plain truncation on the client's own address
+	var srcs []*source
+	low := 0
+	for try := 0; try < 50 && len(srcs) == 0; try++ {
+		cand := 30000 + 2*ctx.Rng.Intn(10000)
+		var got []*source
+		ok := true
+		for _, ip := range []string{fmt.Sprintf("127.0.0.%d", 8+k), clientIP, "127.0.0.1"} {
+			for _, port := range []int{cand, cand + 1} {
+				sx, err := bind(ip, port)
+				if err != nil {
+					ok = false
+					break
+				}
+				got = append(got, sx)
+			}
+		}
+		if ok {
+			srcs, low = got, cand
+		} else {
+			for _, sx := range got {
+				sx.sock.Close()
+			}
+		}
+	}
+	if len(srcs) == 0 {
+		ctx.Kind("oversized-port:no-free-ports")
+		return
+	}
+	defer func() {
+		for _, sx := range srcs {
+			sx.sock.Close()
+		}
+	}()
+	big := 65536*k + low
+	if st, _, err := pr.do("DESCRIBE", "s", nil, nil); err != nil || st != 200 {
+		fail("scenario-setup", "DESCRIBE: %d %v", st, err)
+		return
+	}
+	st, _, err := pr.do("SETUP", "s/trackID=0", map[string]string{"Transport": fmt.Sprintf("RTP/AVP;unicast;client_port=%d-%d;mode=play", big, big+1)}, nil)
+	ctx.Eval()
+	ctx.Kind("oversized-port")
+	if err != nil {
+		fail("scenario-setup", "SETUP: %v", err)
+		return
+	}
+	if st != 200 {
+		ctx.Kind("oversized-port:setup-refused") // refusing such ports is fine too
+		return
+	}
+	h.mu.Lock()
+	info := h.sessions[len(h.sessions)-1]
+	h.mu.Unlock()
+	if st, _, err := pr.do("PLAY", "s", nil, nil); err != nil || st != 200 {
+		ctx.Kind("oversized-port:play-refused")
+		return
+	}
+	ctx.Nontrivial(name)
+	srvRTP := &net.UDPAddr{IP: net.ParseIP("127.0.0.1"), Port: h.ports[0]}
+	srvRTCP := &net.UDPAddr{IP: net.ParseIP("127.0.0.1"), Port: h.ports[1]}
+	before := info.ss.Stats().InboundBytes
+	h.mu.Lock()
+	cb0 := info.rtp + info.rtcp
+	h.mu.Unlock()
+	for round := 0; round < 5; round++ {
+		for i, sx := range srcs {
+			if i%2 == 0 {
+				sx.sock.WriteToUDP(sx.rtp(60), srvRTP) //nolint:errcheck
+			} else {
+				sx.sock.WriteToUDP(append(rtcpPacket(0), rrPacket()...), srvRTCP) //nolint:errcheck
+			}
+		}
+	}
+	time.Sleep(150 * time.Millisecond)
+	after := info.ss.Stats().InboundBytes
+	h.mu.Lock()
+	cb1 := info.rtp + info.rtcp
+	h.mu.Unlock()
+	if after != before || cb1 != cb0 {
+		fail("udp-oversized-port-session-fed", "a session that negotiated client_port=%d-%d (no datagram can come from such a port) counted %d inbound bytes and %d callbacks from datagrams sent by 127.0.0.%d / %s / 127.0.0.1, ports %d-%d",
+			big, big+1, after-before, cb1-cb0, 8+k, clientIP, low, low+1)
+	}
+}
+
 func serverScenarios(ctx *hx.Ctx) {
+	for _, k := range []int{1, 2, 5} {
+		oversizedPortScenario(ctx, k)
+	}
 	n := ctx.Budget(60, 1500)
 	reps := ctx.Budget(2, 6)
 	for i := 0; i < reps; i++ {
